@@ -82,11 +82,16 @@ pub struct TokSer {
     /// Return `Err` from the call with this 0-based index.
     pub fail_at: Option<usize>,
     pub injected: bool,
+    /// What `Serializer::is_human_readable()` answers (text formats: true, binary: false).
+    pub human_readable: bool,
 }
 
 impl TokSer {
     pub fn new(fail_at: Option<usize>) -> TokSer {
-        TokSer { toks: Vec::new(), calls: 0, fail_at, injected: false }
+        TokSer { toks: Vec::new(), calls: 0, fail_at, injected: false, human_readable: true }
+    }
+    pub fn binary(fail_at: Option<usize>) -> TokSer {
+        TokSer { toks: Vec::new(), calls: 0, fail_at, injected: false, human_readable: false }
     }
     #[inline]
     fn tick(&mut self) -> Result<(), SimErr> {
@@ -126,6 +131,10 @@ impl<'a> ser::Serializer for &'a mut TokSer {
     type SerializeMap = Compound<'a>;
     type SerializeStruct = Compound<'a>;
     type SerializeStructVariant = Compound<'a>;
+
+    fn is_human_readable(&self) -> bool {
+        self.human_readable
+    }
 
     fn serialize_bool(self, v: bool) -> Result<(), SimErr> {
         self.put(Tok::Bool(v))
@@ -343,11 +352,14 @@ pub struct TokDe<'t> {
     pub fail_at: Option<usize>,
     pub injected: bool,
     pub byz_applied: usize,
+    pub human_readable: bool,
 }
 
 impl<'t> TokDe<'t> {
     pub fn new(toks: &'t [Tok], target: &'t str, byz: Byz, fail_at: Option<usize>) -> TokDe<'t> {
-        TokDe { toks, pos: 0, target, byz, calls: 0, fail_at, injected: false, byz_applied: 0 }
+        // Alternate between "text-like" and "binary-like" peers deterministically with the document.
+        let human_readable = toks.len() % 2 == 0;
+        TokDe { toks, pos: 0, target, byz, calls: 0, fail_at, injected: false, byz_applied: 0, human_readable }
     }
     fn tick(&mut self) -> Result<(), SimErr> {
         let i = self.calls;
@@ -531,6 +543,10 @@ fn expect_end(de: &mut TokDe<'_>, end: &Tok) -> Result<(), SimErr> {
 
 impl<'de, 'a, 't: 'de> de::Deserializer<'de> for &'a mut TokDe<'t> {
     type Error = SimErr;
+
+    fn is_human_readable(&self) -> bool {
+        self.human_readable
+    }
 
     fn deserialize_any<V: Visitor<'de>>(self, visitor: V) -> Result<V::Value, SimErr> {
         self.tick()?;
